@@ -192,7 +192,9 @@ func (rd *reader) closeBody(rule string) {
 			// provenance: code = int(Uint16(payload)), text = string(payload[2:]) of this frame's payload
 			payload := rd.controlPayload(p, i)
 			cs := strip(code)
-			if payload == nil || cs.Kind != core.KCall || len(cs.Args) < 1 || cs.Args[len(cs.Args)-1] != payload {
+			if payload != nil && bigEndianOf(p.X, code, payload, 2) {
+				// decoded by hand from the two leading bytes of this payload
+			} else if payload == nil || cs.Kind != core.KCall || len(cs.Args) < 1 || cs.Args[len(cs.Args)-1] != payload {
 				ok, why = false, "status code passed to handleClose is not decoded from this frame's payload"
 			}
 			ts := strip(text)
